@@ -128,14 +128,14 @@ type side struct {
 	streams map[uint32]*mux.Stream
 }
 
-type pairRig struct {
+type seshPair struct {
 	method byte
 	key    [32]byte
 	S      [2]*side
 }
 
-func newPairRig(method byte, key [32]byte, nconn int, singleplex, unordered bool, inactivity time.Duration) *pairRig {
-	rg := &pairRig{method: method, key: key}
+func newSeshPair(method byte, key [32]byte, nconn int, singleplex, unordered bool, inactivity time.Duration) *seshPair {
+	rg := &seshPair{method: method, key: key}
 	for i := 0; i < 2; i++ {
 		ob, err := mux.MakeObfuscator(method, key)
 		if err != nil {
@@ -150,7 +150,7 @@ func newPairRig(method byte, key [32]byte, nconn int, singleplex, unordered bool
 	return rg
 }
 
-func (rg *pairRig) addConn(k int) {
+func (rg *seshPair) addConn(k int) {
 	a, b := newPair(fmt.Sprintf("c%d", k))
 	rg.S[0].conns = append(rg.S[0].conns, a)
 	rg.S[1].conns = append(rg.S[1].conns, b)
@@ -160,7 +160,7 @@ func (rg *pairRig) addConn(k int) {
 
 // deliver moves the oldest record written by side `from` on connection k to the peer's reader.
 // returns the decoded frame header for the op line, or ok=false if nothing was pending.
-func (rg *pairRig) deliver(from, k int) (rec []byte, ok bool) {
+func (rg *seshPair) deliver(from, k int) (rec []byte, ok bool) {
 	c := rg.S[from].conns[k]
 	r := c.pop()
 	if r == nil {
@@ -176,13 +176,13 @@ func (rg *pairRig) deliver(from, k int) (rec []byte, ok bool) {
 }
 
 // fault kills connection k on both ends; undelivered records are lost.
-func (rg *pairRig) fault(k int) {
+func (rg *seshPair) fault(k int) {
 	rg.S[0].conns[k].kill()
 	rg.S[1].conns[k].kill()
 }
 
 // propagate: a Close() on one endpoint is eventually seen by the other as EOF.
-func (rg *pairRig) propagate() int {
+func (rg *seshPair) propagate() int {
 	n := 0
 	for s := 0; s < 2; s++ {
 		for _, c := range rg.S[s].conns {
